@@ -8,6 +8,7 @@
 
 __thread TaskCtx *g_task = nullptr;
 __thread char g_cur_op_kind[32] = "";
+bool g_force_user_workspace = false;
 
 static const char kCallerTag[] = "CALLER";
 
